@@ -338,6 +338,12 @@ func facadeCheck(c *fw.Ctx, pc *pdfCase, q request) (verdict, bool) {
 		return verdict{Class: "facade/error", What: fmt.Sprintf("%s fails with exclusion (%v) but not without", q, err1)}, true
 	}
 	U, F := atomsOf(base), atomsOf(got)
+	if q.TM == "layout" && d.CharLevel {
+		// PreserveLayout pads with spaces to mimic positions; on a character-level
+		// page the padding can fall inside a word. White space inside a line is
+		// not text, so atoms are read from the lines with blanks removed.
+		U, F = atomsOf(stripBlanks(base)), atomsOf(stripBlanks(got))
+	}
 	if os.Getenv("C11_DEBUG") != "" {
 		fmt.Fprintf(os.Stderr, "--- %s\nwithout: %q\nwith:    %q\n", q, base, got)
 	}
@@ -364,8 +370,44 @@ func facadeCheck(c *fw.Ctx, pc *pdfCase, q request) (verdict, bool) {
 		// to the smaller fragment set.
 		if pc.directOK && !pc.directPartial {
 			red, err := view(pc.reduced(), q.Sel, q.SelHow, "", q.API, q.TM)
-			if err == nil && equalStrings(atomsOf(red), F) {
+			ra := atomsOf(red)
+			if q.TM == "layout" && d.CharLevel {
+				ra = atomsOf(stripBlanks(red))
+			}
+			if err == nil && equalStrings(ra, F) {
 				v.Finding = findingReflow
+				if strings.Contains(v.Class, "not-subsequence") {
+					// what moved: only marginal fragments that stayed, or body text too?
+					body := map[string]bool{}
+					for _, u := range d.Units {
+						for _, a := range u.Atoms {
+							if u.Band == bandBody {
+								if _, seen := body[a]; !seen {
+									body[a] = true
+								}
+							} else {
+								body[a] = false
+							}
+						}
+					}
+					only := func(xs []string) []string {
+						var out []string
+						for _, x := range xs {
+							if body[x] {
+								out = append(out, x)
+							}
+						}
+						return out
+					}
+					if isSubsequence(only(F), only(U)) {
+						c.Count("reflow_reorder_body_order_kept", 1)
+					} else {
+						c.Count("reflow_reorder_body_order_changed", 1)
+						if os.Getenv("C11_REFLOW_LOG") != "" {
+							fmt.Fprintf(os.Stderr, "BODYREORDER %s %s\n  with=%v\n  without=%v\n", pc.id, q, only(F), only(U))
+						}
+					}
+				}
 				if os.Getenv("C11_REFLOW_LOG") != "" {
 					fmt.Fprintf(os.Stderr, "REFLOW %s char=%v %s\n", pc.id, d.CharLevel, v.What)
 				}
@@ -384,6 +426,10 @@ func facadeCheck(c *fw.Ctx, pc *pdfCase, q request) (verdict, bool) {
 		return verdict{Class: "facade/" + q.API + "/changed-without-repetition", What: fmt.Sprintf("%s: output differs from the output without exclusion although the document has no repeated marginal text: %q vs %q", q, fw.OneLine(got, 300), fw.OneLine(base, 300))}, true
 	}
 	return verdict{}, true
+}
+
+func stripBlanks(s string) string {
+	return strings.NewReplacer(" ", "", "\t", "").Replace(s)
 }
 
 func equalStrings(a, b []string) bool {
@@ -424,23 +470,26 @@ func runWitness(c *fw.Ctx, dir string) {
 	if !c.Want(id) {
 		return
 	}
-	d := &docSpec{NPages: 2, W: []float64{595, 595}, H: []float64{842, 842}, Features: map[string]bool{"witness": true}, Total: 89}
-	hdr, ftr := "annual figure qwitzaaaa 1992", "stone violet qwitzaaab harbour"
+	// Page 1 carries a unique line in the top-right corner next to the running
+	// header. Without exclusion the column detector sees two columns and reads
+	// the unique line after the body; once the header, page number and footer
+	// are filtered out the page is a single column and the line is read first.
+	d := &docSpec{NPages: 2, W: []float64{612, 612}, H: []float64{792, 792}, Features: map[string]bool{"witness": true}, Total: 2}
+	hdr, ftr := "qwitzaaaa stone meadow result", "qwitzaaab result market"
 	for p := 0; p < 2; p++ {
 		d.Units = append(d.Units,
-			unit{Page: p, Role: "hdr-run", Band: bandTop, X: 372.6, Y: 784, Size: 11, Text: hdr, Series: "hdrA"},
-			unit{Page: p, Role: "ftr-run", Band: bandBottom, X: 72, Y: 52, Size: 11, Text: ftr, Series: "ftrA"})
+			unit{Page: p, Role: "hdr-run", Band: bandTop, X: 72, Y: 748, Size: 8, Text: hdr, Series: "hdrA"},
+			unit{Page: p, Role: "ftr-run", Band: bandBottom, X: 447, Y: 38, Size: 9, Text: ftr, Series: "ftrA"},
+			unit{Page: p, Role: "pagenum", Band: bandTop, X: 299.7, Y: 734, Size: 9, Text: fmt.Sprintf("%d/2", p+1), Series: "pn"})
 	}
 	d.Units = append(d.Units,
-		unit{Page: 0, Role: "pagenum", Band: bandTop, X: 494.1, Y: 812, Size: 8, Text: "88 of 89", Series: "pn"},
-		unit{Page: 1, Role: "pagenum", Band: bandTop, X: 72, Y: 812, Size: 8, Text: "89 of 89", Series: "pn"},
-		unit{Page: 0, Role: "margin-unique", Band: bandTop, X: 258.2, Y: 798, Size: 9, Text: "window qwitzaaac"},
-		unit{Page: 0, Role: "margin-unique", Band: bandBottom, X: 460.3, Y: 24, Size: 8, Text: "qwitzaaad result"},
-		unit{Page: 0, Role: "body-numeric", Band: bandBody, X: 72, Y: 128, Size: 12, Text: "1512"},
-		unit{Page: 0, Role: "body-numeric", Band: bandBody, X: 72, Y: 100, Size: 12, Text: "1494"},
-		unit{Page: 1, Role: "body-numeric", Band: bandBody, X: 72, Y: 730, Size: 12, Text: "1494"})
+		unit{Page: 0, Role: "margin-unique", Band: bandTop, X: 479, Y: 762, Size: 9, Text: "letter qwitzaaac"},
+		unit{Page: 0, Role: "body", Band: bandBody, X: 72, Y: 681, Size: 11, Text: "qwitzaaad candle signal signal copper garden"},
+		unit{Page: 0, Role: "body-numeric", Band: bandBody, X: 72, Y: 664, Size: 11, Text: "1355"},
+		unit{Page: 1, Role: "body-numeric", Band: bandBody, X: 72, Y: 681, Size: 11, Text: "1386"},
+		unit{Page: 1, Role: "body", Band: bandBody, X: 72, Y: 100, Size: 11, Text: "island annual copper qwitzaaae"})
 	classify(d)
-	reqs := []request{{Sel: []int{1}, SelHow: "pages-first", Mode: "F", API: "Text", TM: "join"}}
+	reqs := []request{{Sel: []int{1}, SelHow: "mode-first", Mode: "H", API: "Text", TM: "bycolumn"}}
 	runDoc(c, dir, id, "witness-reflow.pdf", d, func() *rand.Rand { return rand.New(rand.NewSource(1)) }, reqs)
 }
 
